@@ -32,6 +32,22 @@ void clock_arm(uint64_t budget);
 void clock_disarm();
 extern void (*g_on_nontermination)();  // called when the budget is exhausted without progress (never returns)
 
+// syscall seam for the *path* overloads (libstdc++ filebuf -> write/writev/read/close): the executable defines these
+// symbols itself; real work goes through syscall(2). Faults apply only to the file whose path is armed.
+struct SysSeam {
+    bool active = false;
+    char path[256] = {0};
+    long enospc_after = -1;     // bytes accepted before write()/writev() start failing with ENOSPC (-1: never)
+    long read_eio_after = -1;   // bytes delivered before read() starts failing with EIO
+    bool close_fails = false;
+    long written = 0, delivered = 0;
+    long fired_enospc = 0, fired_eio = 0, fired_close = 0, short_writes = 0;
+    int fd_cache = -1;
+};
+extern SysSeam g_sys;
+void sys_arm(const char *path, long enospc_after, long read_eio_after, bool close_fails);
+void sys_disarm();
+
 extern size_t g_writebuf_knob;  // replaces the writer's 100 MiB preallocation (0 = keep the real value)
 
 }  // namespace sim
